@@ -23,121 +23,223 @@ import (
 	"strings"
 )
 
+// touchSpec: how often / how deeply a module's state is touched. Process-wide state that is a
+// stack, a list or a counter (output buffers, handlers, autoloaders, shutdown functions, ini
+// keys, constants, included files, static counters) is touched K times / K levels deep; V selects
+// a shape (partial closes / restores / unregisters in between).
+type touchSpec struct{ K, V int }
+
 type stateMod struct {
 	name  string
-	probe string                 // PHP statements printing the observable (no label); "" = none
-	touch func(id string) string // PHP statements changing the state
-	post  string                 // observation after the touches ("" = same as probe)
-	tail  bool                   // the touch must come last (it swallows or ends the output)
+	probe string                                // PHP statements printing the observable (no label); "" = none
+	touch func(id string, t touchSpec) string // PHP statements changing the state
+	post  string                                // observation after the touches ("" = same as probe)
+	tail  bool                                  // the touch must come last (it swallows or ends the output)
 }
+
+// rep renders f(1..k) joined by spaces
+func rep(k int, f func(j int) string) string {
+	var parts []string
+	for j := 1; j <= k; j++ {
+		parts = append(parts, f(j))
+	}
+	return strings.Join(parts, " ")
+}
+
+// sfx: "" for the first instance, "2".."4" for the others (names of the K-fold touches)
+func sfx(j int) string {
+	if j <= 1 {
+		return ""
+	}
+	return fmt.Sprint(j)
+}
+
+const allSfx = `['', '2', '3', '4']`
 
 func sg(name string) stateMod { // superglobal module
 	return stateMod{
-		name:  "superglobal" + name,
-		probe: fmt.Sprintf(`echo isset($%s['c20']) ? $%s['c20'] : 'unset';`, name, name),
-		touch: func(id string) string { return fmt.Sprintf(`$%s['c20'] = 'by-%s';`, name, id) },
+		name: "superglobal" + name,
+		probe: fmt.Sprintf(`$n = 0; foreach (%s as $x) { if (isset($%s['c20' . $x])) { $n++; } } echo isset($%s['c20']) ? $%s['c20'] : 'unset', ",", $n;`,
+			allSfx, name, name, name),
+		touch: func(id string, t touchSpec) string {
+			return rep(t.K, func(j int) string { return fmt.Sprintf(`$%s['c20%s'] = 'by-%s';`, name, sfx(j), id) })
+		},
 	}
 }
 
-func stateModules(incPath string) []stateMod {
+func stateModules(incPaths []string) []stateMod {
 	mods := []stateMod{
 		{name: "same_names",
 			probe: `$t = new C20Same(); echo $t->id(), ",", C20Same::sid(), ",", C20Same::ID, ",", c20_same(), ",", C20SameI::IID, ",", $t->tag, ",", get_class($t);`,
-			touch: func(id string) string { return `$c20_same_obj = new C20Same(); $c20_same_obj->tag = 'changed';` }},
+			touch: func(id string, t touchSpec) string {
+				return rep(t.K, func(j int) string {
+					return fmt.Sprintf(`$c20_same_obj%d = new C20Same(); $c20_same_obj%d->tag = 'changed%d';`, j, j, j)
+				})
+			}},
 		{name: "static_prop",
 			probe: `echo C20Static::$n, ",", count(C20Static::$log);`,
-			touch: func(id string) string {
-				return `C20Static::bump(); C20Static::bump(); C20Static::$n += 10; C20Static::$log[] = '` + id + `';`
+			touch: func(id string, t touchSpec) string {
+				return rep(t.K, func(j int) string {
+					return `C20Static::bump(); C20Static::$n += 10; C20Static::$log[] = '` + id + `';`
+				})
 			}},
 		{name: "static_local",
 			probe: `echo c20_counter();`,
-			touch: func(id string) string { return `c20_counter(); c20_counter(); c20_counter();` }},
+			touch: func(id string, t touchSpec) string { return rep(t.K, func(int) string { return `c20_counter(); c20_counter();` }) }},
 		{name: "define",
-			probe: `echo defined('C20_DEF') ? 'defined' : 'undefined';`,
-			touch: func(id string) string { return `define('C20_DEF', 'by-` + id + `');` },
-			post:  `echo defined('C20_DEF') ? C20_DEF : 'undefined';`},
-		{name: "conditional_decl",
-			probe: `echo class_exists('C20Opt') ? 'class' : 'noclass', ",", function_exists('c20_opt') ? 'func' : 'nofunc';`,
-			touch: func(id string) string {
-				return `if (!class_exists('C20Opt')) { class C20Opt { function id() { return '` + id + `'; } } } if (!function_exists('c20_opt')) { function c20_opt() { return '` + id + `'; } }`
+			probe: `foreach (` + allSfx + ` as $x) { echo defined('C20_DEF' . $x) ? 'defined' : 'undefined', ","; }`,
+			touch: func(id string, t touchSpec) string {
+				return rep(t.K, func(j int) string { return fmt.Sprintf(`define('C20_DEF%s', 'by-%s-%d');`, sfx(j), id, j) })
 			},
-			post: `echo class_exists('C20Opt') ? (new C20Opt())->id() : 'noclass', ",", function_exists('c20_opt') ? c20_opt() : 'nofunc';`},
+			post: `echo defined('C20_DEF') ? C20_DEF : 'undefined', ",", defined('C20_DEF2') ? C20_DEF2 : 'undefined', ",", defined('C20_DEF3') ? C20_DEF3 : 'undefined', ",", defined('C20_DEF4') ? C20_DEF4 : 'undefined';`},
+		{name: "conditional_decl",
+			probe: `foreach (` + allSfx + ` as $x) { echo class_exists('C20Opt' . $x) ? 'class' : 'noclass', ",", function_exists('c20_opt' . $x) ? 'func' : 'nofunc', ";"; }`,
+			touch: func(id string, t touchSpec) string {
+				return rep(t.K, func(j int) string {
+					x := sfx(j)
+					return `if (!class_exists('C20Opt` + x + `')) { class C20Opt` + x + ` { function id() { return '` + id + `'; } } } if (!function_exists('c20_opt` + x + `')) { function c20_opt` + x + `() { return '` + id + `'; } }`
+				})
+			},
+			post: `echo class_exists('C20Opt') ? (new C20Opt())->id() : 'noclass', ",", function_exists('c20_opt') ? c20_opt() : 'nofunc', ",", class_exists('C20Opt3') ? 'class3' : 'noclass3';`},
 		{name: "class_alias",
-			probe: `echo class_exists('C20Alias') ? 'alias' : 'noalias';`,
-			touch: func(id string) string { return `class_alias('C20Same', 'C20Alias');` },
-			post:  `echo class_exists('C20Alias') ? (new C20Alias())->id() : 'noalias';`},
+			probe: `foreach (` + allSfx + ` as $x) { echo class_exists('C20Alias' . $x) ? 'alias' : 'noalias', ","; }`,
+			touch: func(id string, t touchSpec) string {
+				return rep(t.K, func(j int) string { return `class_alias('C20Same', 'C20Alias` + sfx(j) + `');` })
+			},
+			post: `echo class_exists('C20Alias') ? (new C20Alias())->id() : 'noalias', ",", class_exists('C20Alias2') ? (new C20Alias2())->id() : 'noalias2';`},
 		{name: "error_handler",
 			probe: `try { trigger_error("c20-probe-warning", E_USER_WARNING); echo "returned"; } catch (\Throwable $e) { echo "thrown:", $e->getMessage(); }`,
-			touch: func(id string) string {
-				return `set_error_handler(function($no, $str) { echo "[error-handler of ` + id + `: ", $str, "]"; return true; });`
+			touch: func(id string, t touchSpec) string {
+				s := rep(t.K, func(j int) string {
+					return fmt.Sprintf(`set_error_handler(function($no, $str) { echo "[error-handler %d of %s: ", $str, "]"; return true; });`, j, id)
+				})
+				if t.V == 1 {
+					s += ` if (function_exists('restore_error_handler')) { restore_error_handler(); }`
+				}
+				return s
 			}},
 		{name: "global_var",
-			probe: `echo isset($c20plain) ? $c20plain : 'unset', ",", isset($GLOBALS['c20g']) ? $GLOBALS['c20g'] : 'unset';`,
-			touch: func(id string) string { return `$c20plain = 'by-` + id + `'; $GLOBALS['c20g'] = 'by-` + id + `';` }},
+			probe: `echo isset($c20plain) ? $c20plain : 'unset', ",", isset($GLOBALS['c20g']) ? $GLOBALS['c20g'] : 'unset', ",", isset($GLOBALS['c20g3']) ? $GLOBALS['c20g3'] : 'unset';`,
+			touch: func(id string, t touchSpec) string {
+				return rep(t.K, func(j int) string {
+					return fmt.Sprintf(`$c20plain%s = 'by-%s'; $GLOBALS['c20g%s'] = 'by-%s';`, sfx(j), id, sfx(j), id)
+				})
+			}},
 		sg("_GET"), sg("_POST"), sg("_COOKIE"), sg("_REQUEST"), sg("_SERVER"), sg("_ENV"), sg("_FILES"), sg("_SESSION"),
 		{name: "ini_precision",
 			probe: `echo ini_get('precision'), "|", 1 / 3;`,
-			touch: func(id string) string { return `ini_set('precision', '5');` }},
+			touch: func(id string, t touchSpec) string {
+				// several writes of the same key, the last one wins
+				return rep(t.K, func(j int) string { return fmt.Sprintf(`ini_set('precision', '%d');`, 4+t.K-j+1) })
+			}},
 		{name: "ini_custom",
-			probe: `echo var_export(ini_get('c20.custom'), true), "|", var_export(ini_get('display_errors'), true), "|", var_export(ini_get('memory_limit'), true);`,
-			touch: func(id string) string {
-				return `ini_set('c20.custom', 'by-` + id + `'); ini_set('display_errors', '0'); ini_set('memory_limit', '77M');`
+			probe: `foreach (` + allSfx + ` as $x) { echo var_export(ini_get('c20.custom' . $x), true), "|"; } echo var_export(ini_get('display_errors'), true), "|", var_export(ini_get('memory_limit'), true);`,
+			touch: func(id string, t touchSpec) string {
+				return rep(t.K, func(j int) string { return fmt.Sprintf(`ini_set('c20.custom%s', 'by-%s-%d');`, sfx(j), id, j) }) +
+					` ini_set('display_errors', '0'); ini_set('memory_limit', '77M');`
 			}},
 		{name: "error_reporting",
 			probe: `echo error_reporting();`,
-			touch: func(id string) string { return `error_reporting(0);` }},
+			touch: func(id string, t touchSpec) string {
+				return rep(t.K, func(j int) string { return fmt.Sprintf(`error_reporting(%d);`, (t.K-j)*7) })
+			}},
 		{name: "timezone",
 			probe: `echo date_default_timezone_get();`,
-			touch: func(id string) string { return `date_default_timezone_set('Asia/Tokyo');` }},
+			touch: func(id string, t touchSpec) string {
+				zones := []string{"Asia/Tokyo", "Europe/Paris", "America/Lima", "Asia/Tokyo"}
+				return rep(t.K, func(j int) string { return `date_default_timezone_set('` + zones[(j+t.V)%4] + `');` })
+			}},
 		{name: "include_once",
-			probe: `echo function_exists('c20_inc') ? 'have' : 'none';`,
-			touch: func(id string) string { return `include_once '` + incPath + `';` },
-			post:  `echo function_exists('c20_inc') ? c20_inc() : 'none';`},
+			probe: `foreach (` + allSfx + ` as $x) { echo function_exists('c20_inc' . $x) ? 'have' : 'none', ","; }`,
+			touch: func(id string, t touchSpec) string {
+				stmt := []string{"include_once", "require_once", "include"}[t.V%3]
+				return rep(t.K, func(j int) string { return stmt + ` '` + incPaths[j-1] + `';` })
+			},
+			post: `echo function_exists('c20_inc') ? c20_inc() : 'none', ",", function_exists('c20_inc2') ? c20_inc2() : 'none', ",", function_exists('c20_inc3') ? c20_inc3() : 'none', ",", function_exists('c20_inc4') ? c20_inc4() : 'none';`},
 		{name: "object_ids",
 			probe: `$t = new stdClass(); var_dump($t); echo spl_object_id($t) > 0 ? 'id' : 'noid';`,
-			touch: func(id string) string {
-				return `$c20_keep = [new C20Same(), new C20Same(), new stdClass()]; echo "\n@B|touchout.object_ids\n"; var_dump($c20_keep); echo "\n@E|touchout.object_ids\n";`
+			touch: func(id string, t touchSpec) string {
+				return `$c20_keep = [` + rep(t.K, func(int) string { return `new C20Same(), new stdClass(),` }) + `]; echo "\n@B|touchout.object_ids\n"; var_dump($c20_keep); echo "\n@E|touchout.object_ids\n";`
 			}},
 		{name: "autoload",
 			probe: `echo count(spl_autoload_functions()), ",", class_exists('C20Missing') ? 'y' : 'n';`,
-			touch: func(id string) string {
-				return `spl_autoload_register(function($c) { echo "[autoloader of ` + id + `: ", $c, "]"; });`
+			touch: func(id string, t touchSpec) string {
+				s := rep(t.K, func(j int) string {
+					return fmt.Sprintf(`$c20_al%d = function($c) { echo "[autoloader %d of %s: ", $c, "]"; }; spl_autoload_register($c20_al%d);`, j, j, id, j)
+				})
+				if t.V == 1 {
+					s += ` spl_autoload_unregister($c20_al1);`
+				}
+				return s
 			}},
 		{name: "shutdown",
 			probe: ``,
-			touch: func(id string) string {
-				return `register_shutdown_function(function() { echo "[shutdown of ` + id + `]\n"; });`
+			touch: func(id string, t touchSpec) string {
+				return rep(t.K, func(j int) string {
+					return fmt.Sprintf(`register_shutdown_function(function() { echo "[shutdown %d of %s]\n"; });`, j, id)
+				})
 			}},
 		{name: "http_headers",
 			probe: `echo var_export(http_response_code(), true), ",", headers_sent() ? 'sent' : 'notsent';`,
-			touch: func(id string) string {
-				return `header('X-C20: ` + id + `'); http_response_code(404); header_register_callback(function() { echo "[header-callback of ` + id + `]"; });`
+			touch: func(id string, t touchSpec) string {
+				return `http_response_code(404); ` + rep(t.K, func(j int) string {
+					return fmt.Sprintf(`header('X-C20-%d: %s'); header_register_callback(function() { echo "[header-callback %d of %s]"; });`, j, id, j, id)
+				})
 			}},
 		{name: "ob_nested",
 			probe: `echo ob_get_level(), ",", strlen(ob_get_contents());`,
-			touch: func(id string) string {
-				return `ob_start(); echo "captured-by-` + id + `"; $c20_ob = ob_get_clean();`
+			touch: func(id string, t touchSpec) string {
+				// K levels opened first, then written and closed innermost-first (all closed again)
+				s := rep(t.K, func(int) string { return `ob_start();` })
+				s += ` echo "captured-by-` + id + `";`
+				s += " " + rep(t.K, func(j int) string {
+					if (j+t.V)%2 == 0 {
+						return `ob_end_clean();`
+					}
+					return fmt.Sprintf(`$c20_ob%d = ob_get_clean();`, j)
+				})
+				return s
 			}},
 		// tails
 		{name: "ob_left_open", tail: true,
-			touch: func(id string) string { return `ob_start(); echo "[left in the buffer by ` + id + `]\n";` }},
+			touch: func(id string, t touchSpec) string {
+				// K+V levels opened, V of them closed again, K buffers are left open at the end
+				s := rep(t.K+t.V, func(int) string { return `ob_start();` })
+				if t.V > 0 {
+					s += " " + rep(t.V, func(j int) string {
+						if j%2 == 0 {
+							return `ob_end_clean();`
+						}
+						return `$c20_t = ob_get_clean();`
+					})
+				}
+				return s + fmt.Sprintf(` echo "[left in buffer level %d by %s]\n";`, t.K, id)
+			}},
 		{name: "exception_handler", tail: true,
-			touch: func(id string) string {
-				return `set_exception_handler(function($e) { echo "[exception-handler of ` + id + `: ", $e->getMessage(), "]\n"; });`
+			touch: func(id string, t touchSpec) string {
+				s := rep(t.K, func(j int) string {
+					return fmt.Sprintf(`set_exception_handler(function($e) { echo "[exception-handler %d of %s: ", $e->getMessage(), "]\n"; });`, j, id)
+				})
+				if t.V == 1 && t.K > 1 {
+					s += ` restore_exception_handler();`
+				}
+				return s
 			}},
 		{name: "uncaught", tail: true,
-			touch: func(id string) string { return `throw new Exception("uncaught-in-` + id + `");` }},
+			touch: func(id string, t touchSpec) string { return `throw new Exception("uncaught-in-` + id + `");` }},
 	}
 	return mods
 }
 
-const incFileSource = `<?php
-function c20_inc() { return 'included'; }
-`
+// incFileSource is the j-th helper file of the include module
+func incFileSource(j int) string {
+	return "<?php\nfunction c20_inc" + sfx(j) + "() { return 'included" + sfx(j) + "'; }\n"
+}
 
 type stateProg struct {
 	id      string
 	touched []string
+	spec    map[string]touchSpec
 	src     string
 }
 
@@ -162,11 +264,11 @@ function c20_counter() { static $k = 0; $k++; return $k; }
 // buildStateProgram renders the program for a given id and set of touched modules.
 // usable(name) filters modules (calibration: a module whose observation cannot even be
 // executed on a fresh process is left out).
-func buildStateProgram(mods []stateMod, id string, touched map[string]bool, usable func(string) bool) *stateProg {
+func buildStateProgram(mods []stateMod, id string, touched map[string]touchSpec, usable func(string) bool) *stateProg {
 	var sb strings.Builder
 	sb.WriteString("<?php\n")
 	sb.WriteString(stateDecls(id))
-	p := &stateProg{id: id}
+	p := &stateProg{id: id, spec: touched}
 	for _, m := range mods {
 		if m.probe == "" || !usable(m.name) {
 			continue
@@ -174,10 +276,11 @@ func buildStateProgram(mods []stateMod, id string, touched map[string]bool, usab
 		sb.WriteString(label("probe."+m.name, m.probe))
 	}
 	for _, m := range mods {
-		if m.tail || !touched[m.name] || !usable(m.name) {
+		t, on := touched[m.name]
+		if m.tail || !on || !usable(m.name) {
 			continue
 		}
-		sb.WriteString(m.touch(id) + "\n")
+		sb.WriteString(m.touch(id, t) + "\n")
 		p.touched = append(p.touched, m.name)
 	}
 	for _, m := range mods {
@@ -195,10 +298,11 @@ func buildStateProgram(mods []stateMod, id string, touched map[string]bool, usab
 	}
 	sb.WriteString("echo \"\\n@B|tail\\n\";\n")
 	for _, m := range mods {
-		if !m.tail || !touched[m.name] || !usable(m.name) {
+		t, on := touched[m.name]
+		if !m.tail || !on || !usable(m.name) {
 			continue
 		}
-		sb.WriteString(m.touch(id) + "\n")
+		sb.WriteString(m.touch(id, t) + "\n")
 		p.touched = append(p.touched, m.name)
 	}
 	sb.WriteString("echo \"end of " + id + "\\n\";\n")
@@ -207,16 +311,24 @@ func buildStateProgram(mods []stateMod, id string, touched map[string]bool, usab
 	return p
 }
 
-func randomTouchSet(r *rand.Rand, mods []stateMod) map[string]bool {
-	t := map[string]bool{}
+// randomTouchSet: multi(name) tells whether the module may be touched more than once
+// (calibration); K is 1..4 (40/30/20/10 %), V 0..2.
+func randomTouchSet(r *rand.Rand, mods []stateMod, multi func(string) bool) map[string]touchSpec {
+	t := map[string]touchSpec{}
 	pr := []int{15, 35, 60}[r.Intn(3)]
 	for _, m := range mods {
 		p := pr
 		if m.tail {
-			p = 20
+			p = 25
 		}
-		if r.Intn(100) < p {
-			t[m.name] = true
+		x := r.Intn(100)
+		k := []int{1, 1, 1, 1, 2, 2, 2, 3, 3, 4}[r.Intn(10)]
+		v := r.Intn(3)
+		if x < p {
+			if multi != nil && !multi(m.name) {
+				k, v = 1, 0
+			}
+			t[m.name] = touchSpec{K: k, V: v}
 		}
 	}
 	return t
